@@ -107,6 +107,15 @@ func Families() []Named {
 		// no %start: the documented default start symbol is the nonterminal named `start`
 		// (which is also the name of yaccgo's internal augmented symbol)
 		{"default-start", Parse("", abc[:2], "start: start TA A | A ; A: TB | ")},
+		// the same production written twice (legal yacc), with further rules after the second copy
+		{"duplicate-rule", Parse("E", []string{"TA"}, "E: E '+' T | T | T ; T: T '*' F | F ; F: '(' E ')' | TA")},
+		// a %nonassoc level above several left-associative ones: in the state E '<' E . the reductions outnumber the error entries
+		{"nonassoc-high", Parse("E", []string{"TA"}, "E: E '+' E | E '-' E | E '*' E | E '<' E | '(' E ')' | TA").WithPrec("left '+' '-' '*'", "nonassoc '<'")},
+		// several transitions on one nonterminal enter the same state, which shifts exactly three terminals
+		{"shared-dr-3", Parse("S", []string{"TA", "TB"}, "S: '[' I ']' | '(' I ')' ; I: A '+' TB | A '-' TB | A '*' TB | A ; A: TA | TB")},
+		// right-hand sides of more than 16 symbols
+		{"rhs-17-right-recursive", Parse("L", abc[:2], "L: TA TA TA TA TA TA TA TA TA TA TA TA TA TA TA TA L | TB")},
+		{"rhs-18-nonterminal-at-16", Parse("S", abc[:3], "S: TC | TA TA TA TA TA TA TA TA TA TA TA TA TA TA TA TA A TB ; A: TC | TA A")},
 		{"nonassoc-cmp", Parse("E", []string{"TA"}, "E: E '<' E | E '+' E | TA").WithPrec("nonassoc '<'", "left '+'")},
 	}
 }
